@@ -70,6 +70,19 @@ def rule_escape(rep: Report, repo: Repo) -> None:
     if 'self._validate_header' in call_order:
         validated_before = set(call_order[call_order.index('self._validate_header') + 1:])
     closure = reader_closure(repo)
+    # a private method reached only from methods that run after the header validation runs after it too
+    callers: Dict[str, Set[str]] = {}
+    for q_ in closure:
+        for c_ in calls(repo.func(R, q_)):
+            if dotted(c_.func).startswith('self.'):
+                callers.setdefault(dotted(c_.func), set()).add('self.' + q_.split('.', 1)[1] if '.' in q_ else q_)
+    grew = bool(validated_before)
+    while grew:
+        grew = False
+        for m_, cs_ in callers.items():
+            if m_ not in validated_before and m_ != 'self._validate_header' and cs_ and cs_ <= validated_before:
+                validated_before.add(m_)
+                grew = True
     if len(closure) < 7:
         raise AnalysisError(f'reader closure shrank to {closure}')
     for q in closure:
@@ -110,6 +123,8 @@ def rule_escape(rep: Report, repo: Repo) -> None:
                 right = s.node.right          # type: ignore[attr-defined]
                 if isinstance(right, ast.Constant) and isinstance(right.value, int) and right.value > 0:
                     proof = f'CONST: constant operand {right.value}'
+                elif isinstance(s.node.op, (ast.Mod, ast.FloorDiv)) and _width_bytes(fn, right, repo) and f'self.{q.split(".")[1]}' in validated_before:      # type: ignore[attr-defined]
+                    proof = 'CONST: divisor is the validated memory width // 8 (>= 1 for every supported width)'
                 elif isinstance(s.node.op, ast.LShift) and norm(right) in ('self.memory_width',):     # type: ignore[attr-defined]
                     proof = 'CONST: shift by the validated memory width'
                 elif isinstance(s.node.op, (ast.LShift, ast.RShift)) and ('memory_width' in norm(right) or 'bit_length' in norm(right)):  # type: ignore[attr-defined]
@@ -124,8 +139,49 @@ def rule_escape(rep: Report, repo: Repo) -> None:
         for n in walk_no_nested(fn):
             if isinstance(n, ast.Raise) and n.exc is not None:
                 c = raised_class(n)
+                if c == 'error' and in_root_try and 'error' in root_catches:
+                    rep.ok('C10.ESCAPE', f'{q}:raise {c}@{norm(n.exc)[:40]}', 'HANDLER: the struct.error raised here is converted by Reader.__init__', f'{R}:{n.lineno} {q}')
+                    continue
                 rep.check(c == READ_EXC, 'C10.ESCAPE', f'{q}:raise {c}@{norm(n.exc)[:40]}', f'raises {c}', f'{R}:{n.lineno} {q}',
                           expected=READ_EXC)
+
+
+def _width_bytes(fn: Any, e: ast.expr, repo: Repo) -> bool:
+    """e, read through the locals of fn, is `self.memory_width // K` with K a positive constant not above the smallest supported width"""
+    from ..pyfacts import resolve_names
+    r = resolve_names(fn, e, allow_calls=True)
+    sup = repo.const('flipjump/fjm/fjm_consts.py', 'SUPPORTED_MEMORY_WIDTHS')
+    vh = [norm(t) for t, r_, _ in raise_guards(_validate_header_fn(repo))]
+    if isinstance(r, ast.Subscript) and isinstance(r.value, ast.Dict) and norm(r.slice) == 'self.memory_width' and all(
+            isinstance(k, ast.Constant) and isinstance(v, ast.Constant) and isinstance(v.value, int) and v.value > 0 for k, v in zip(r.value.keys, r.value.values)) \
+            and {k.value for k in r.value.keys} >= set(sup) and 'self.memory_width not in SUPPORTED_MEMORY_WIDTHS' in vh:         # type: ignore[union-attr]
+        return True             # a per-width table of positive byte counts covering the supported widths
+    if isinstance(r, ast.Call) and dotted(r.func).split('.')[-1] == 'calcsize' and len(r.args) == 1 and 'self.memory_width not in SUPPORTED_MEMORY_WIDTHS' in vh:
+        # calcsize('<' + {8: 'B', ..}[self.memory_width]): the size of a one-code struct format is positive for every entry of the table
+        a = r.args[0]
+        tabs = [x for x in ast.walk(a) if isinstance(x, ast.Subscript) and isinstance(x.value, ast.Dict) and norm(x.slice) == 'self.memory_width']
+        if len(tabs) == 1 and {k.value for k in tabs[0].value.keys if isinstance(k, ast.Constant)} >= set(sup) and all(          # type: ignore[attr-defined]
+                isinstance(v, ast.Constant) and isinstance(v.value, str) and len(v.value) == 1 and v.value in 'bBhHiIlLqQ' for v in tabs[0].value.values):    # type: ignore[attr-defined]
+            return True
+    return (isinstance(r, ast.BinOp) and isinstance(r.op, ast.FloorDiv) and norm(r.left) == 'self.memory_width' and isinstance(r.right, ast.Constant)
+            and isinstance(r.right.value, int) and 0 < r.right.value <= min(sup) and 'self.memory_width not in SUPPORTED_MEMORY_WIDTHS' in vh)
+
+
+def _partial_word_refused(rd: Any, repo: Repo) -> Optional[str]:
+    """the text of a test `len(B) % S` (S the width-derived word size, read through locals) under which the word reader raises: a data area
+    that ends inside a word is refused before anything is decoded"""
+    from ..pyfacts import resolve_names
+    for n in ast.walk(rd):
+        if isinstance(n, ast.If) and any(isinstance(x, ast.Raise) for x in n.body) and not n.orelse:
+            t = resolve_names(rd, n.test)
+            if isinstance(t, ast.Compare) and len(t.ops) == 1 and isinstance(t.ops[0], (ast.NotEq, ast.Gt)) and norm(t.comparators[0]) == '0':
+                t = t.left
+            elif isinstance(t, ast.Compare) and len(t.ops) == 1 and isinstance(t.ops[0], (ast.NotEq, ast.Lt)) and norm(t.left) == '0':
+                t = t.comparators[0]
+            if isinstance(t, ast.BinOp) and isinstance(t.op, ast.Mod) and isinstance(t.left, ast.Call) and dotted(t.left.func) == 'len' \
+                    and _width_bytes(rd, t.right, repo):
+                return norm(n.test)
+    return None
 
 
 def _benign_helper(repo: Repo, name: str) -> bool:
@@ -179,15 +235,22 @@ def _words_walk(fold: Any) -> Optional[Tuple[str, str, bool]]:
 def rule_bounded(rep: Report, repo: Repo) -> None:
     rep.rule('C10.BOUNDED', 'every loop or comprehension whose trip count comes from a file field consumes file bytes on each '
              'iteration (so it ends by struct.error), follows the pool-range check, or is under the dense-tail threshold', 5)
-    seg = repo.func(R, 'Reader._init_segments')
+    seg = expand_private_calls(repo, R, repo.func(R, 'Reader._init_segments'), 'Reader')
     folds_s = comprehension_or_loop(seg)           # the comprehension, or the equivalent append loop
     ok = len(folds_s) == 1 and norm(folds_s[0][0]) == 'range(self.segment_num)' and \
         norm(folds_s[0][1]) == 'unpack(_segment_format, fjm_file.read(_segment_size))'
+    if not ok:
+        # the append loop that names the four fields first: the exact-size unpack is an unconditional statement of the loop body
+        loops = [n for n in ast.walk(seg) if isinstance(n, ast.For)]
+        ok = len(loops) == 1 and norm(loops[0].iter) == 'range(self.segment_num)' and not loops[0].orelse and any(
+            isinstance(st, (ast.Assign, ast.Expr)) and any(norm(c) == 'unpack(_segment_format, fjm_file.read(_segment_size))' for c in calls(st)) for st in loops[0].body)
     rep.check(ok, 'C10.BOUNDED', '_init_segments:range(segment_num)', 'each iteration unpacks one exact-size record (a short read raises)',
               f'{R}:{seg.lineno}')
-    rd = repo.func(R, 'Reader._read_decompressed_data')
+    rd = expand_private_calls(repo, R, repo.func(R, 'Reader._read_decompressed_data'), 'Reader')        # an extracted `_unpack_words` helper reads in place
     folds = comprehension_or_loop(rd)
     ok = len(folds) == 1 and _words_walk(folds[0]) is not None          # range(0, len(B), S) over the bytes B that were read, whatever they are called
+    if not folds and _partial_word_refused(rd, repo):
+        ok = True               # one bulk decode of the bytes that were read: no file-controlled trip count at all
     rep.check(ok, 'C10.BOUNDED', '_read_decompressed_data:words', 'bounded by the bytes actually read', f'{R}:{rd.lineno}')
     im = normalize_counting_whiles(expand_private_calls(repo, R, repo.func(R, 'Reader._init_memory'), 'Reader'))
     for n in ast.walk(im):
@@ -266,18 +329,19 @@ def rule_torn(rep: Report, repo: Repo) -> None:
     rep.rule('C10.TORN', 'structural reasons a strict prefix is rejected: exact-size unpack of header and table, per-word unpack '
              'of exact-size slices (no len//size truncation), one-shot lzma.decompress (raises without the end marker)', 4)
     from ..pyfacts import inline_adjacent_temps
-    rh = inline_adjacent_temps(repo.func(R, 'Reader._init_header_fields'))      # `buf = f.read(n)` / `unpack(fmt, buf)` reads in place
+    rh = inline_adjacent_temps(expand_private_calls(repo, R, repo.func(R, 'Reader._init_header_fields'), 'Reader'))      # `buf = f.read(n)` / `unpack(fmt, buf)` reads in place
     reads = [norm(c) for c in calls(rh) if dotted(c.func) == 'unpack']
     rep.check(reads == ['unpack(_header_base_format, fjm_file.read(_header_base_size))',
                         'unpack(_header_extension_format, fjm_file.read(_header_extension_size))'], 'C10.TORN', 'header:exact-size-unpack',
               str(reads), f'{R}:{rh.lineno}')
-    rd = repo.func(R, 'Reader._read_decompressed_data')
+    rd = expand_private_calls(repo, R, repo.func(R, 'Reader._read_decompressed_data'), 'Reader')
     folds = comprehension_or_loop(rd)
     elt = norm(folds[0][1]).replace(folds[0][2] or 'i', 'i') if len(folds) == 1 and (folds[0][2] or '').isidentifier() else ''
     ww = _words_walk(folds[0]) if len(folds) == 1 else None
-    rep.check(ww is not None and ww[2], 'C10.TORN', 'words:per-slice-unpack', elt, f'{R}:{rd.lineno}',
-              expected='each word is unpacked from its own slice, so a partial last word raises')
-    no_trunc = not any(isinstance(n, ast.BinOp) and isinstance(n.op, ast.FloorDiv) and 'len(' in norm(n.left) for n in ast.walk(rd))
+    refused = _partial_word_refused(rd, repo)
+    rep.check((ww is not None and ww[2]) or refused is not None, 'C10.TORN', 'words:per-slice-unpack', elt or f'a data area with `{refused}` is refused before decoding', f'{R}:{rd.lineno}',
+              expected='each word is unpacked from its own slice, so a partial last word raises (or a length that is no multiple of the word size is refused)')
+    no_trunc = refused is not None or not any(isinstance(n, ast.BinOp) and isinstance(n.op, ast.FloorDiv) and 'len(' in norm(n.left) for n in ast.walk(rd))
     rep.check(no_trunc, 'C10.TORN', 'words:no-length-truncation', 'no len(data)//size in the word reader', f'{R}:{rd.lineno}')
     dd = repo.func(R, 'Reader._decompress_data')
     one_shot = [dotted(c.func) for c in calls(dd) if dotted(c.func).startswith('lzma.')]
